@@ -197,9 +197,15 @@ int mantis_ctr_init(MantisCTR_t *ctr)
     if (_skinny_has_vec128())
         vtable = &_mantis_ctr_vec128;
     ctr->vtable = vtable;
+    ctr->ctx = 0;
 
     /* Initialize the CTR mode context */
-    return (*(vtable->init))(ctr);
+    if (!(*(vtable->init))(ctr)) {
+        /* Out of memory: leave the control block in the cleaned up state */
+        ctr->vtable = 0;
+        return 0;
+    }
+    return 1;
 }
 
 void mantis_ctr_cleanup(MantisCTR_t *ctr)
